@@ -18,6 +18,7 @@ pub fn run(rep: &mut Report, tier: Tier, sel: &[&str], eval: Eval<'_>) {
             "edge" => u_edge(rep, eval),
             "dt" => u_dt(rep, tier, eval),
             "stmt" => u_stmt(rep, tier, eval),
+            "stmt3" => u_stmt3(rep, tier, eval),
             "stmt-small" => u_stmt_small(rep, tier, eval),
             "byte" => u_byte(rep, tier, eval),
             "corpus" => u_corpus(rep, tier, eval),
@@ -256,6 +257,20 @@ fn u_stmt(rep: &mut Report, tier: Tier, eval: Eval<'_>) {
         let (total, acc) = sweep_upto(&refs, n, "", "", &f);
         rep.absorb("U-stmt", &format!("alphabet {:?}, path length <= {}, <= {} statements, {} statement forms, quoted variants: {}", alpha, l, n, st.len(), q), total, true, t0, acc);
     }
+}
+
+/// three-letter alphabet: needed for effects on *unrelated siblings* (e.g. an order-destroying removal)
+fn u_stmt3(rep: &mut Report, tier: Tier, eval: Eval<'_>) {
+    if tier == Tier::Thorough {
+        return; // already part of "stmt" in the thorough tier
+    }
+    let (alpha, l, n) = (vec!["a", "b", "c"], 2, 4);
+    let t0 = Instant::now();
+    let st: Vec<String> = statements(&alpha, l, false).into_iter().filter(|s| !s.contains('{') && !s.contains("[1]")).collect();
+    let refs: Vec<&str> = st.iter().map(|s| s.as_str()).collect();
+    let f = |s: &str, acc: &mut Acc| eval(s.as_bytes(), "U-stmt", acc);
+    let (total, acc) = sweep_upto(&refs, n, "", "", &f);
+    rep.absorb("U-stmt", &format!("alphabet {:?}, path length <= {}, <= {} statements, {} statement forms ([p], [[p]], p = 1 only)", alpha, l, n, st.len()), total, true, t0, acc);
 }
 
 fn u_stmt_small(rep: &mut Report, tier: Tier, eval: Eval<'_>) {
